@@ -1587,7 +1587,10 @@ func (inv *Invoker) Acquire() {
 
 func (inv *Invoker) acquire(usePool bool) {
 	if !inv.isCompiled {
+		// a callee that is not a compiled function runs on the caller's VM,
+		// which may be nil when a Go program calls a library function directly.
 		inv.child = inv.vm
+		return
 	}
 	if inv.child != nil {
 		return
@@ -1614,6 +1617,11 @@ func (inv *Invoker) Release() {
 func (inv *Invoker) Invoke(args ...Object) (Object, error) {
 	if inv.child == nil {
 		inv.acquire(false)
+	}
+	if inv.child == nil {
+		// no VM at all: a Go program calls a callee that is not a compiled
+		// function directly.
+		return inv.invokeObject(inv.callee, args...)
 	}
 	if inv.child.Aborted() {
 		return Undefined, ErrVMAborted
